@@ -127,13 +127,9 @@ func (g *c22Gen) ops(depth int, inCont bool, tail *int) []*rc.Op {
 			}
 			op := &rc.Op{Kind: kind, Read: rapid.IntRange(0, 3).Draw(g.rt, "readVariant")}
 			if kind == rc.OpASN1 {
-				for {
-					op.Tag = rapid.Byte().Draw(g.rt, "tag")
-					if op.Tag&0x1f != 0x1f {
-						break
-					}
+				op.Tag = rapid.Byte().Draw(g.rt, "tag")
+				if op.Tag&0x1f == 0x1f { // high-tag-number form is an error event, generated separately
 					op.Tag &^= 1 << uint(rapid.IntRange(0, 4).Draw(g.rt, "tagfix"))
-					break
 				}
 			}
 			ktail := 0
@@ -455,7 +451,7 @@ func c22Run(cs *c22Case) (exp *rc.Outcome, excluded string, violation error) {
 	case "new-nil":
 		b = cryptobyte.NewBuilder(nil)
 	case "new-prefix":
-		buf = make([]byte, cs.initial, cs.initial+rapidFree(cs))
+		buf = make([]byte, cs.initial, cs.initial+cs.initial%7*9)
 		copy(buf, prefix)
 		b = cryptobyte.NewBuilder(buf)
 	default: // fixed
@@ -526,6 +522,11 @@ func c22Run(cs *c22Case) (exp *rc.Outcome, excluded string, violation error) {
 		}
 	}
 	s := cryptobyte.String(out)
+	if out == nil {
+		// Observation (not part of C22): zero-length reads (Skip(0), ReadBytes(_, 0)) report failure on a
+		// nil String because read() returns s[:0] == nil; an untouched growable Builder returns nil bytes.
+		s = cryptobyte.String([]byte{})
+	}
 	if !s.Skip(cs.initial) {
 		return exp, "", fmt.Errorf("Skip(initial) failed")
 	}
@@ -537,8 +538,6 @@ func c22Run(cs *c22Case) (exp *rc.Outcome, excluded string, violation error) {
 	}
 	return exp, "", nil
 }
-
-func rapidFree(cs *c22Case) int { return cs.initial % 7 * 9 }
 
 func c22Verdict(o *rc.Outcome) string {
 	if o.Err == "" {
@@ -665,7 +664,7 @@ func TestC22(t *testing.T) {
 			case m < 4:
 				cs.kind, cs.capa = "fixed-exact", peak
 			case m < 8:
-				cs.kind, cs.capa = "fixed-short", max(0, peak-rapid.IntRange(1, 4).Draw(rt, "short"))
+				cs.kind, cs.capa = "fixed-short", max(cs.initial, peak-rapid.IntRange(1, 4).Draw(rt, "short"))
 			case m == 8 && free.Err == "":
 				cs.kind, cs.capa = "fixed-final", free.Final+cs.initial // smaller than the peak when bytes were unwritten
 			default:
@@ -736,7 +735,7 @@ func TestC22(t *testing.T) {
 			lim{rc.OpLP32, []int{1 << 24}})
 	}
 	wrappers := []rc.OpKind{-1, rc.OpLP16, rc.OpLP24, rc.OpLP32, rc.OpASN1}
-	n, idx := 0, 0
+	idx := 0
 	for _, l := range lims {
 		for _, ln := range l.lens {
 			for _, w := range wrappers {
@@ -772,7 +771,6 @@ func TestC22(t *testing.T) {
 						continue
 					}
 					c.Case(true, fmt.Sprintf("directed|%s|%d|%v|%s|%s", l.kind, ln, w, bk, exp.Err), "directed:limit-table")
-					n++
 				}
 			}
 		}
